@@ -44,6 +44,7 @@ package redis
 //   cSent  requests written to any connection so far (all nodes)
 //   cRecv  replies read from any connection so far
 //   bSent / bRecv  the same, counted on the node connection of the batch being executed
+//   connDropped    the pipeline actor has shut its connection down and not yet taken a new one
 //@ func redisNode.getConn
 //@   trusted abstract connection pool
 //@   ensures conn: result1 == nil ==> result0 != nil
@@ -247,3 +248,20 @@ func SpecUpper(s string) string { return s }
 //@   ensures accepted_command_is_appended_to_its_node_batch: result == nil && len(batch.index) == old(len(batch.index)) + 1 ==> len(batch.batches[batch.index[len(batch.index) - 1]].cmds) >= 1 && batch.batches[batch.index[len(batch.index) - 1]].cmds[len(batch.batches[batch.index[len(batch.index) - 1]].cmds) - 1].cmd == putCmd
 //@   loop 2:
 //@     invariant scanning: 0 <= i#2 && i#2 <= len(batch.batches) && node != nil && batWF(batch) && batch.batches == old(batch.batches) && batch.index == old(batch.index) && (forall j int :: 0 <= j && j < i#2 ==> batch.batches[j].node != node)
+
+// ---- per-node ordered pipeline: replies are read from the connection the requests were ------
+// ---- written to (C19): a connection is only (re)acquired when no reply is outstanding --------
+//@ func redisConn.isClosed
+//@   trusted abstract connection
+//@   modifies nothing
+//@ func nodePipeline.run
+//@   arith int
+//@   properties C19
+//@   ghost var connDropped mathint = 0
+//@   requires nonnil: p != nil && p.node != nil
+//@   modifies heap, cSent, cRecv, connDropped
+//@   set connDropped = 1 at call shutdown
+//@   set connDropped = 0 after call getConn
+//@   assert at call getConn: a_dropped_connection_leaves_no_outstanding_reply: connDropped == 1 ==> len(pending) == 0
+//@   loop 1:
+//@     invariant dropped_connection_has_no_outstanding_reply: connDropped == 1 ==> conn == nil && len(pending) == 0
